@@ -102,6 +102,9 @@ func (fr *Frame) preludeCall(st *State, name string, fn *ssa.Function, args []Va
 	ex := fr.ex
 	switch name {
 	case "__requires", "__ensures", "__invariant", "__canary":
+		if st.oldDepth != 0 {
+			ex.unsupported("internal: unbalanced old() nesting (%d) at clause %s", st.oldDepth, constString(cc.Args[0]))
+		}
 		if ex.collect != nil {
 			*ex.collect = append(*ex.collect, clauseInst{Kind: strings.TrimPrefix(name, "__"), Name: constString(cc.Args[0]),
 				// clause calls are top-level statements of the generated spec function: every
@@ -125,16 +128,20 @@ func (fr *Frame) preludeCall(st *State, name string, fn *ssa.Function, args []Va
 			ex.trusted["assume in lemma/spec at "+fr.pos(pos).String()] = true
 		}
 		return Val{}, true
-	case "__old":
+	case "__oldMark":
+		// old(e) is compiled to __old(__oldMark(), e): from the mark to the call, heap
+		// reads go to the pre-state (values of variables bound outside keep their value)
 		if ex.ghost == 0 {
-			// in a lemma body: old refers to the lemma's entry state; not supported
 			ex.unsupported("old() outside of a contract")
 		}
-		x := args[0]
-		if x.T == nil {
-			ex.unsupported("old() of a non-term value")
-		}
-		return Val{T: substPrefix(x.T, "CUR.", "OLD.")}, true
+		st.oldDepth++
+		return Val{T: TTrue}, true
+	case "__oldEnd":
+		st.oldDepth--
+		return Val{}, true
+	case "__old":
+		st.oldDepth--
+		return args[1], true
 	case "__ite":
 		return Val{T: Ite(args[0].T, args[1].T, args[2].T)}, true
 	case "__forall", "__forall2", "__forall3", "__exists", "__exists2":
@@ -244,6 +251,13 @@ func (fr *Frame) preludeCall(st *State, name string, fn *ssa.Function, args []Va
 		rb := Bound{Name: ex.boundName("r"), Sort: SRef}
 		rv := V(rb.Name, SRef)
 		return Val{T: Forall([]Bound{rb}, Implies(Select(al, rv), Eq(Select(cur, rv), Select(old, rv))))}, true
+	case "__arrayAllocated":
+		return Val{T: Select(ex.get(st, "Alloc", ArraySort(SRef, SBool)), SArr(args[0].T))}, true
+	case "__allocated":
+		if os.Getenv("VC_DEBUG") != "" {
+			fmt.Fprintf(os.Stderr, "ALLOCATED in %s oldDepth=%d heapAlloc=%v\n", fr.fn.Name(), st.oldDepth, st.heap["Alloc"])
+		}
+		return Val{T: Select(ex.get(st, "Alloc", ArraySort(SRef, SBool)), args[0].T)}, true
 	case "__sameSlice":
 		return Val{T: Eq(args[0].T, args[1].T)}, true
 	case "__nilSlice":
@@ -443,6 +457,9 @@ func (fr *Frame) loopClauses(st *State, li *loopInfo) ([]clauseInst, bool) {
 	nFixed := len(args)
 	for i := nFixed; i < len(lf.Params); i++ {
 		name := lf.Params[i].Name()
+		if src, ok := fr.contract.C.LoopAlias[fmt.Sprintf("%d.%s", li.ord, name)]; ok {
+			name = src
+		}
 		v, ok := fr.resolveLoopVar(st, li, name)
 		if !ok {
 			ex.note("STALE-CONTRACT: loop %d of %s: variable %q not found", li.ord, fr.fn.Name(), name)
